@@ -18,8 +18,11 @@ package main
 import (
 	"fmt"
 	"go/ast"
+	"go/constant"
 	"go/token"
 	"go/types"
+	"sort"
+	"strings"
 )
 
 type VKind int
@@ -68,6 +71,11 @@ type Graph struct {
 	info     *types.Info
 	byNode   map[ast.Node]int
 	noReturn func(*ast.CallExpr) bool
+	// flag-sensitive reachability (see Reach)
+	flagsDone bool
+	flagVars  map[types.Object]bool
+	flagEff   map[int][]flagEffect
+	flagTest  map[int]flagTestT
 }
 
 type gbuilder struct {
@@ -503,6 +511,378 @@ func (g *Graph) newSet() VSet { return make(VSet, len(g.V)) }
 // without entering a vertex for which blockV is true and without following an edge for
 // which blockE is true. A start vertex that is blocked is not expanded but is in the set.
 func (g *Graph) Reach(starts []int, blockV func(v *Vertex) bool, blockE func(e Edge) bool) VSet {
+	return g.reach(starts, blockV, blockE, true)
+}
+
+// reach: markStarts=false leaves the start vertices out of the result unless they are reached
+// again (used by ReachAfter, which must still apply the start vertex's own effects).
+func (g *Graph) reach(starts []int, blockV func(v *Vertex) bool, blockE func(e Edge) bool, markStarts bool) VSet {
+	g.initFlags()
+	if len(g.flagVars) == 0 {
+		if markStarts {
+			return g.reachPlain(starts, blockV, blockE)
+		}
+		var succ []int
+		for _, s := range starts {
+			for _, e := range g.V[s].Succs {
+				if blockE != nil && blockE(e) {
+					continue
+				}
+				if blockV != nil && blockV(g.V[e.To]) {
+					continue
+				}
+				succ = append(succ, e.To)
+			}
+		}
+		return g.reachPlain(succ, blockV, blockE)
+	}
+	// Path-sensitive in the variables that are assigned the constants true / false / nil
+	// somewhere ("flags"): a state is a vertex plus what is known about the flags on the path
+	// taken so far; a condition that tests a flag with a known value only continues on the
+	// consistent edge. Unknown values continue on both edges, so the result over-approximates
+	// the feasible paths and under-approximates nothing.
+	seen := g.newSet()
+	type state struct {
+		v   int
+		env string
+	}
+	visited := map[state]bool{}
+	type item struct {
+		v   int
+		env map[types.Object]int8
+	}
+	key := func(env map[types.Object]int8) string {
+		if len(env) == 0 {
+			return ""
+		}
+		var ks []string
+		for o, val := range env {
+			ks = append(ks, fmt.Sprintf("%p=%d", o, val))
+		}
+		sort.Strings(ks)
+		return strings.Join(ks, ",")
+	}
+	var stack []item
+	for _, s := range starts {
+		if markStarts {
+			st := state{s, ""}
+			if !visited[st] {
+				visited[st] = true
+				seen[s] = true
+				stack = append(stack, item{s, nil})
+			}
+		} else {
+			// not marked visited: re-entering the start with an empty environment must expand again
+			stack = append(stack, item{s, nil})
+		}
+	}
+	for len(stack) > 0 {
+		it := stack[len(stack)-1]
+		stack = stack[:len(stack)-1]
+		v := g.V[it.v]
+		env := it.env
+		// effects of the vertex
+		if effs := g.flagEff[it.v]; len(effs) > 0 {
+			ne := make(map[types.Object]int8, len(env)+len(effs))
+			for o, val := range env {
+				ne[o] = val
+			}
+			for _, ef := range effs {
+				if ef.val == flagUnknown {
+					delete(ne, ef.obj)
+				} else {
+					ne[ef.obj] = ef.val
+				}
+			}
+			env = ne
+		}
+		decided := -1
+		if v.Kind == VCond {
+			if t, ok := g.flagTest[it.v]; ok {
+				if val, known := env[t.obj]; known {
+					// t.onTrue: the value for which the condition is true
+					if val == t.onTrue {
+						decided = LTrue
+					} else {
+						decided = LFalse
+					}
+				}
+			}
+		}
+		for _, e := range v.Succs {
+			if decided >= 0 && (e.Label == LTrue || e.Label == LFalse) && e.Label != decided {
+				continue
+			}
+			if blockE != nil && blockE(e) {
+				continue
+			}
+			if blockV != nil && blockV(g.V[e.To]) {
+				continue
+			}
+			st := state{e.To, key(env)}
+			if visited[st] {
+				continue
+			}
+			if len(visited) > 200000 {
+				// give up on precision: fall back to plain reachability
+				saved := g.flagVars
+				g.flagVars = nil
+				r := g.reach(starts, blockV, blockE, markStarts)
+				g.flagVars = saved
+				return r
+			}
+			visited[st] = true
+			seen[e.To] = true
+			stack = append(stack, item{e.To, env})
+		}
+	}
+	return seen
+}
+
+const (
+	flagUnknown int8 = iota
+	flagFalse
+	flagTrue
+	flagNil
+	flagNonNil
+)
+
+type flagEffect struct {
+	obj types.Object
+	val int8
+}
+
+type flagTestT struct {
+	obj    types.Object
+	onTrue int8 // the flag value that makes the condition true
+}
+
+// initFlags finds the flag variables of the function and their per-vertex effects / tests.
+func (g *Graph) initFlags() {
+	if g.flagsDone {
+		return
+	}
+	g.flagsDone = true
+	info := g.info
+	if info == nil {
+		return
+	}
+	objOfIdent := func(e ast.Expr) types.Object {
+		id, ok := ast.Unparen(e).(*ast.Ident)
+		if !ok {
+			return nil
+		}
+		if o := info.Uses[id]; o != nil {
+			return o
+		}
+		return info.Defs[id]
+	}
+	constVal := func(e ast.Expr) int8 {
+		e = ast.Unparen(e)
+		if tv, ok := info.Types[e]; ok {
+			if tv.IsNil() {
+				return flagNil
+			}
+			if tv.Value != nil && tv.Value.Kind() == constant.Bool {
+				if constant.BoolVal(tv.Value) {
+					return flagTrue
+				}
+				return flagFalse
+			}
+		}
+		if id, ok := e.(*ast.Ident); ok {
+			switch id.Name {
+			case "true":
+				if _, isConst := info.Uses[id].(*types.Const); isConst {
+					return flagTrue
+				}
+			case "false":
+				if _, isConst := info.Uses[id].(*types.Const); isConst {
+					return flagFalse
+				}
+			case "nil":
+				if _, isNil := info.Uses[id].(*types.Nil); isNil {
+					return flagNil
+				}
+			}
+		}
+		return flagUnknown
+	}
+	isLocal := func(o types.Object) bool {
+		v, ok := o.(*types.Var)
+		return ok && !v.IsField() && v.Pkg() != nil && v.Parent() != nil && v.Parent() != v.Pkg().Scope()
+	}
+	// candidates: locals assigned a constant somewhere
+	cands := map[types.Object]bool{}
+	eff := map[int][]flagEffect{}
+	captured := map[types.Object]bool{}
+	for _, v := range g.V {
+		if v.Node == nil {
+			continue
+		}
+		// variables assigned or address-taken inside closures are not tracked
+		ast.Inspect(v.Node, func(n ast.Node) bool {
+			lit, ok := n.(*ast.FuncLit)
+			if !ok {
+				return true
+			}
+			ast.Inspect(lit.Body, func(m ast.Node) bool {
+				switch x := m.(type) {
+				case *ast.AssignStmt:
+					for _, l := range x.Lhs {
+						if o := objOfIdent(l); o != nil {
+							captured[o] = true
+						}
+					}
+				case *ast.UnaryExpr:
+					if x.Op == token.AND {
+						if o := objOfIdent(x.X); o != nil {
+							captured[o] = true
+						}
+					}
+				case *ast.IncDecStmt:
+					if o := objOfIdent(x.X); o != nil {
+						captured[o] = true
+					}
+				}
+				return true
+			})
+			return false
+		})
+		if ue, ok := v.Node.(*ast.UnaryExpr); ok && ue.Op == token.AND {
+			if o := objOfIdent(ue.X); o != nil {
+				captured[o] = true
+			}
+		}
+		inspectNoLit(v.Node, func(n ast.Node) bool {
+			if ue, ok := n.(*ast.UnaryExpr); ok && ue.Op == token.AND {
+				if o := objOfIdent(ue.X); o != nil {
+					captured[o] = true
+				}
+			}
+			return true
+		})
+		switch n := v.Node.(type) {
+		case *ast.AssignStmt:
+			if v.Kind != VStmt {
+				break
+			}
+			for i, l := range n.Lhs {
+				o := objOfIdent(l)
+				if o == nil || !isLocal(o) {
+					continue
+				}
+				val := flagUnknown
+				if len(n.Lhs) == len(n.Rhs) && (n.Tok == token.ASSIGN || n.Tok == token.DEFINE) {
+					val = constVal(n.Rhs[i])
+					if val == flagUnknown {
+						if _, isIface := o.Type().Underlying().(*types.Interface); isIface && nonNilErrExpr(info, n.Rhs[i]) {
+							val = flagNonNil
+						}
+					}
+				}
+				eff[v.ID] = append(eff[v.ID], flagEffect{o, val})
+				if val != flagUnknown {
+					cands[o] = true
+				}
+			}
+		case *ast.ValueSpec:
+			for i, id := range n.Names {
+				o := info.Defs[id]
+				if o == nil || !isLocal(o) {
+					continue
+				}
+				val := flagUnknown
+				if len(n.Values) == len(n.Names) {
+					val = constVal(n.Values[i])
+				} else if len(n.Values) == 0 {
+					switch u := o.Type().Underlying().(type) {
+					case *types.Basic:
+						if u.Info()&types.IsBoolean != 0 {
+							val = flagFalse
+						}
+					case *types.Pointer, *types.Interface, *types.Slice, *types.Map, *types.Chan, *types.Signature:
+						val = flagNil
+					}
+				}
+				eff[v.ID] = append(eff[v.ID], flagEffect{o, val})
+				if val != flagUnknown {
+					cands[o] = true
+				}
+			}
+		case *ast.IncDecStmt:
+			if o := objOfIdent(n.X); o != nil && isLocal(o) {
+				eff[v.ID] = append(eff[v.ID], flagEffect{o, flagUnknown})
+			}
+		}
+		if v.Kind == VRange {
+			rs := v.Stmt.(*ast.RangeStmt)
+			for _, kv := range []ast.Expr{rs.Key, rs.Value} {
+				if kv != nil {
+					if o := objOfIdent(kv); o != nil && isLocal(o) {
+						eff[v.ID] = append(eff[v.ID], flagEffect{o, flagUnknown})
+					}
+				}
+			}
+		}
+	}
+	// select comm clauses (x := <-ch) define variables too: their vertices are AssignStmt nodes, handled above
+	g.flagVars = map[types.Object]bool{}
+	for o := range cands {
+		if !captured[o] {
+			g.flagVars[o] = true
+		}
+	}
+	g.flagEff = map[int][]flagEffect{}
+	for id, es := range eff {
+		for _, e := range es {
+			if g.flagVars[e.obj] {
+				g.flagEff[id] = append(g.flagEff[id], e)
+			}
+		}
+	}
+	g.flagTest = map[int]flagTestT{}
+	for _, v := range g.V {
+		if v.Kind != VCond {
+			continue
+		}
+		e := ast.Unparen(v.Node.(ast.Expr))
+		if o := objOfIdent(e); o != nil && g.flagVars[o] {
+			if b, ok := o.Type().Underlying().(*types.Basic); ok && b.Info()&types.IsBoolean != 0 {
+				g.flagTest[v.ID] = flagTestT{o, flagTrue}
+			}
+			continue
+		}
+		if be, ok := e.(*ast.BinaryExpr); ok && (be.Op == token.EQL || be.Op == token.NEQ) {
+			var o types.Object
+			var c int8
+			if oo := objOfIdent(be.X); oo != nil && g.flagVars[oo] {
+				o, c = oo, constVal(be.Y)
+			} else if oo := objOfIdent(be.Y); oo != nil && g.flagVars[oo] {
+				o, c = oo, constVal(be.X)
+			}
+			if o == nil || c == flagUnknown {
+				continue
+			}
+			// x == c is true exactly for the value c (values are only known when they are constants)
+			if be.Op == token.EQL {
+				g.flagTest[v.ID] = flagTestT{o, c}
+			} else {
+				// x != c: true for the other boolean value; for nil only "known nil" decides (false)
+				switch c {
+				case flagTrue:
+					g.flagTest[v.ID] = flagTestT{o, flagFalse}
+				case flagFalse:
+					g.flagTest[v.ID] = flagTestT{o, flagTrue}
+				case flagNil:
+					g.flagTest[v.ID] = flagTestT{o, flagNonNil}
+				}
+			}
+		}
+	}
+}
+
+func (g *Graph) reachPlain(starts []int, blockV func(v *Vertex) bool, blockE func(e Edge) bool) VSet {
 	seen := g.newSet()
 	var stack []int
 	for _, s := range starts {
@@ -510,10 +890,6 @@ func (g *Graph) Reach(starts []int, blockV func(v *Vertex) bool, blockE func(e E
 			seen[s] = true
 			stack = append(stack, s)
 		}
-	}
-	first := map[int]bool{}
-	for _, s := range starts {
-		first[s] = true
 	}
 	for len(stack) > 0 {
 		v := stack[len(stack)-1]
@@ -538,17 +914,7 @@ func (g *Graph) Reach(starts []int, blockV func(v *Vertex) bool, blockE func(e E
 // ReachAfter is like Reach but starts from the successors of v (v itself is in the result
 // only if it can be reached again).
 func (g *Graph) ReachAfter(v int, blockV func(v *Vertex) bool, blockE func(e Edge) bool) VSet {
-	var starts []int
-	for _, e := range g.V[v].Succs {
-		if blockE != nil && blockE(e) {
-			continue
-		}
-		if blockV != nil && blockV(g.V[e.To]) {
-			continue
-		}
-		starts = append(starts, e.To)
-	}
-	return g.Reach(starts, blockV, blockE)
+	return g.reach([]int{v}, blockV, blockE, false)
 }
 
 // Live returns the set of vertices reachable from entry.
